@@ -59,7 +59,7 @@ def bounded(tier, seed):
     fv = []
     fn = fence_function_sweep(tier, fv)
     from . import funcspecs as FS
-    fn += FS.link_destination_roundtrip(fv, 3 if tier == "quick" else 5) + FS.fence_opener_sweep(fv) + FS.code_span_roundtrip(fv, 5 if tier == "quick" else 7)
+    fn += FS.link_destination_roundtrip(fv, 3 if tier == "quick" else 5) + FS.fence_opener_sweep(fv) + FS.code_span_roundtrip(fv, 7 if tier == "quick" else 9)
     return {"evaluations": r1["evaluations"] + r2["evaluations"] + fn, "distinct_nontrivial": r1["distinct_nontrivial"] + r2["distinct_nontrivial"],
             "violations": r1["violations"] + r2["violations"] + fv, "samples": r1["samples"],
             "rule": "(also: _link_destination round trip through the parser for every destination of <= 3 (thorough 5) symbols; the fence test of preprocess_tag_block_spacing == CommonMark's on every line of <= 7 symbols) (also: _min_fence_length == an independent spec on every code string of <= 5/6 tokens over {fence char, run of 3, "
